@@ -18,7 +18,7 @@ if earlier:
     earlier_txt='\nEarlier rounds already produced the following changes for this property; yours must be of a DIFFERENT kind (other code site or other mechanism):\n'+'\n'.join(earlier)+'\n'
 print(f"""You are helping to test a verification effort for the Go library go-kid/ioc (a Spring-style runtime dependency-injection container: tag-driven wiring, post-processor lifecycle, three-level singleton cache for circular references, config value binding).
 
-You have your own scratch git worktree of the repository at /tmp/wt-{pid} (detached HEAD). Work ONLY inside /tmp/wt-{pid}. Never touch /repo, never read or touch /verif. The sandbox has no network; for every go command use:
+You have your own scratch git worktree of the repository at /tmp/wt-{pid} (detached HEAD). Work ONLY inside /tmp/wt-{pid}. Never touch /repo, never read or touch /verif. Do NOT use `git stash` (the stash is shared between all worktrees of the repository and other agents work in sibling worktrees at the same time): to set a change aside, save `git diff` to a file and use `git apply` / `git apply -R` / `git checkout -- .`. The sandbox has no network; for every go command use:
   export GOFLAGS=-mod=mod GOPROXY=off GOSUMDB=off
 (the default `go` on PATH is the right toolchain; the existing suite runs with `go test -vet=off -count=1 ./...` from the worktree root and must pass).
 
